@@ -39,6 +39,13 @@ FillSumRef == LET a == E.n % RefMod w == a % 65536 h == a \div 65536
 TFill == \/ E.ev \in {"append_fill", "sink_vec_fill"} /\ Step((acc + FillSum256) % 256, Norm(ref + FillSumRef))
          \/ E.ev = "delete_fill" /\ Step((acc + 256 - FillSum256) % 256, Norm(ref - FillSumRef))
 
+\* a slice in two uniform parts, ka MiB + ra bytes of a then kb MiB + rb bytes of b (possibly longer than 2^32 bytes):
+\* 2^20 = 0 (mod 256), and (mod RefMod = 2^24) k MiB of a contribute ((k * a) mod 16) * 2^20
+Two256 == (E.ra * E.a + E.rb * E.b) % 256
+TwoRef == (E.ra * E.a + E.rb * E.b + (((E.ka % 16) * E.a + (E.kb % 16) * E.b) % 16) * 1048576) % RefMod
+TTwo == \/ E.ev = "append_two" /\ Step((acc + Two256) % 256, Norm(ref + TwoRef))
+        \/ E.ev = "delete_two" /\ Step((acc + 256 - Two256) % 256, Norm(ref - TwoRef))
+
 \* the complete single-byte transition table from one state, recorded as one event
 TTable ==
   /\ E.ev \in {"add_all", "sub_all"}
@@ -49,7 +56,7 @@ TTable ==
            [l |-> l, ev |-> E.ev, what |-> "transition_table", s |-> E.s, run |-> Get(E, "run", -1)])
   /\ UNCHANGED <<acc, ref>>
 
-TNext == l <= NRec /\ l' = l + 1 /\ (TReset \/ TAdd \/ TSub \/ TAppend \/ TDelete \/ TFill \/ TTable)
+TNext == l <= NRec /\ l' = l + 1 /\ (TReset \/ TAdd \/ TSub \/ TAppend \/ TDelete \/ TFill \/ TTwo \/ TTable)
 TSpec == TInit /\ [][TNext]_tvars
 Done == DoneMsg(l)
 =============================================================================
